@@ -34,6 +34,7 @@ type Hint struct {
 	Salt   string `json:"salt"`              // hex
 	Params string `json:"params"`            // hex, ETYPE-INFO2 only, "" = absent
 	NoSalt bool   `json:"no_salt,omitempty"` // ETYPE-INFO / ETYPE-INFO2 entry without the optional salt field: the default salt applies
+	Empty  bool   `json:"empty,omitempty"`   // ETYPE-INFO / ETYPE-INFO2 whose sequence has no entry at all (kind padata-order only)
 }
 
 // Case covers all sub-checks of C08.
@@ -135,7 +136,7 @@ func Eval(c Case) evid.Verdict {
 			if !bytes.Equal(got, want) {
 				return evid.Fail("des3-random-to-key", "random-to-key(%x) = %x, RFC 3961 value %x", in, got, want)
 			}
-		case "padata":
+		case "padata", "padata-order":
 			return evalPAData(c)
 		case "genkey":
 			return evalGenKey(c)
@@ -198,28 +199,28 @@ func evalS2K(c Case) evid.Verdict {
 // PA-FX-FAST, PA-ENCRYPTED-CHALLENGE, PA-PAC-OPTIONS, PA-TGS-REQ, one unassigned number).
 var otherPATypes = []int{2, 16, 17, 133, 136, 138, 167, 1, 4242}
 
-func evalPAData(c Case) evid.Verdict {
-	pw := string(unhex(c.Password))
-	cname := types.PrincipalName{NameType: 1, NameString: strings.Split(c.CName, "/")}
+// encodeHints renders the hints as the PA-DATA sequence a KDC would send.
+func encodeHints(et int32, hints []Hint) types.PADataSequence {
 	var pas types.PADataSequence
-	best := -1
-	var chosen Hint
-	for _, h := range c.Hints {
+	for _, h := range hints {
 		salt := unhex(h.Salt)
 		var val []byte
 		switch h.Type {
 		case 3:
 			val = salt
 		case 11:
-			e := der.M{"etype": int64(c.EType), "salt": salt}
+			e := der.M{"etype": int64(et), "salt": salt}
 			if h.NoSalt {
 				delete(e, "salt")
 			}
 			val = der.ETypeInfo.MustEncode([]any{e})
+			if h.Empty {
+				val = der.ETypeInfo.MustEncode([]any{})
+			}
 		default:
 			val = salt // an element of another kind (timestamp, FAST, PKINIT, cookie ...): no hint at all
 		case 19:
-			e := der.M{"etype": int64(c.EType), "salt": string(salt)}
+			e := der.M{"etype": int64(et), "salt": string(salt)}
 			if h.NoSalt {
 				delete(e, "salt")
 			}
@@ -227,15 +228,31 @@ func evalPAData(c Case) evid.Verdict {
 				e["s2kparams"] = unhex(h.Params)
 			}
 			val = der.ETypeInfo2.MustEncode([]any{e})
+			if h.Empty {
+				val = der.ETypeInfo2.MustEncode([]any{})
+			}
 		}
 		pas = append(pas, types.PAData{PADataType: int32(h.Type), PADataValue: val})
-		if (h.Type == 3 || h.Type == 11 || h.Type == 19) && h.Type > best { // 19 (INFO2) over 11 (INFO) over 3 (PW-SALT): RFC 4120 §5.2.7.5
+	}
+	return pas
+}
+
+// expectedKey is the key RFC 4120 5.2.7.5 selects: ETYPE-INFO2 over ETYPE-INFO over PW-SALT, whatever their order. An
+// element without entries says nothing; emptyClaims selects the other reading, in which its presence alone outranks
+// the lower kinds (and the default salt applies).
+func expectedKey(c Case, hints []Hint, emptyClaims bool) (want []byte, best int, salt string, params []byte, err error) {
+	best = -1
+	var chosen Hint
+	for _, h := range hints {
+		if h.Empty && !emptyClaims {
+			continue
+		}
+		if (h.Type == 3 || h.Type == 11 || h.Type == 19) && h.Type > best {
 			best, chosen = h.Type, h
 		}
 	}
-	salt := c.Realm + strings.Join(strings.Split(c.CName, "/"), "")
-	var params []byte
-	if best >= 0 {
+	salt = c.Realm + strings.Join(strings.Split(c.CName, "/"), "")
+	if best >= 0 && !chosen.Empty {
 		if !chosen.NoSalt {
 			salt = string(unhex(chosen.Salt))
 		}
@@ -243,7 +260,23 @@ func evalPAData(c Case) evid.Verdict {
 			params = unhex(chosen.Params)
 		}
 	}
-	want, err := ref.StringToKey(c.EType, pw, salt, params)
+	want, err = ref.StringToKey(c.EType, string(unhex(c.Password)), salt, params)
+	return
+}
+
+func evalPAData(c Case) evid.Verdict {
+	pw := string(unhex(c.Password))
+	cname := types.PrincipalName{NameType: 1, NameString: strings.Split(c.CName, "/")}
+	if c.Kind == "padata-order" {
+		return evalPAOrder(c, pw, cname)
+	}
+	for _, h := range c.Hints {
+		if h.Empty {
+			return evid.Fail("harness", "elements without entries belong to kind padata-order")
+		}
+	}
+	pas := encodeHints(c.EType, c.Hints)
+	want, best, salt, params, err := expectedKey(c, c.Hints, false)
 	if err != nil {
 		return evid.Fail("harness", "ref s2k: %v", err)
 	}
@@ -264,6 +297,81 @@ func evalPAData(c Case) evid.Verdict {
 			strings.Join(order, ","), key.KeyValue, key.KeyType, best, salt, params, want)
 	}
 	return evid.Pass()
+}
+
+// evalPAOrder: hint sets that include an ETYPE-INFO / ETYPE-INFO2 element without entries. What such an element means is
+// not spelled out (it says nothing, or its presence outranks the lower kinds), so either key is admissible - but the
+// property's "regardless of their order" is not negotiable: every order of the same elements must give the same key.
+func evalPAOrder(c Case, pw string, cname types.PrincipalName) evid.Verdict {
+	wa, _, _, _, err := expectedKey(c, c.Hints, false)
+	if err != nil {
+		return evid.Fail("harness", "ref s2k: %v", err)
+	}
+	wb, _, _, _, err := expectedKey(c, c.Hints, true)
+	if err != nil {
+		return evid.Fail("harness", "ref s2k: %v", err)
+	}
+	if len(c.Hints) > 4 {
+		return evid.Fail("harness", "at most four elements")
+	}
+	var first []byte
+	var firstOrder string
+	var verdict evid.Verdict
+	ok := true
+	permute(len(c.Hints), func(idx []int) {
+		if !ok {
+			return
+		}
+		hs := make([]Hint, len(idx))
+		names := make([]string, len(idx))
+		for i, j := range idx {
+			hs[i] = c.Hints[j]
+			names[i] = fmt.Sprint(hs[i].Type)
+			if hs[i].Empty {
+				names[i] += "(no entries)"
+			}
+		}
+		order := strings.Join(names, ",")
+		key, _, err := crypto.GetKeyFromPassword(pw, cname, c.Realm, c.EType, encodeHints(c.EType, hs))
+		switch {
+		case err != nil:
+			// refusing a set with an element without entries is fine, as long as every order is refused
+			key.KeyValue = []byte("error")
+		case !bytes.Equal(key.KeyValue, wa) && !bytes.Equal(key.KeyValue, wb):
+			ok, verdict = false, evid.Fail("pa-precedence:empty-element", "GetKeyFromPassword with elements in order [%s] gives key %x: neither the key of the set without the empty elements (%x) nor the key with them outranking the lower kinds (%x)", order, key.KeyValue, wa, wb)
+			return
+		}
+		if first == nil {
+			first, firstOrder = key.KeyValue, order
+		} else if !bytes.Equal(first, key.KeyValue) {
+			ok, verdict = false, evid.Fail("pa-order-dependent", "the same PA-DATA elements give different keys in different orders: [%s] -> %x, [%s] -> %x", firstOrder, first, order, key.KeyValue)
+		}
+	})
+	if !ok {
+		return verdict
+	}
+	return evid.Pass()
+}
+
+// permute calls f with every permutation of 0..n-1.
+func permute(n int, f func([]int)) {
+	idx := make([]int, n)
+	for i := range idx {
+		idx[i] = i
+	}
+	var rec func(k int)
+	rec = func(k int) {
+		if k == n {
+			f(append([]int{}, idx...))
+			return
+		}
+		for i := k; i < n; i++ {
+			idx[k], idx[i] = idx[i], idx[k]
+			rec(k + 1)
+			idx[k], idx[i] = idx[i], idx[k]
+		}
+	}
+	rec(0)
 }
 
 // cheapS2K reports whether a string-to-key case costs little enough to be repeated in the concurrent tier.
@@ -412,7 +520,7 @@ func drawIter(t *rapid.T) uint32 {
 
 func TestProp(t *testing.T) {
 	r := evid.Start(t, "C08", "exploration")
-	for _, k := range []string{"s2k", "nfold", "derive", "rtk", "padata", "genkey", "enum"} {
+	for _, k := range []string{"s2k", "nfold", "derive", "rtk", "padata", "padata-order", "genkey", "enum"} {
 		evid.Reg(r, k, Eval)
 	}
 	if r.Replay() {
@@ -615,6 +723,39 @@ func TestProp(t *testing.T) {
 		judge("padata", c, nt, nil, fmt.Sprintf("hints%d", len(j.perm)), fmt.Sprintf("etype%d", j.et), saltless)
 	})
 	r.Exhaustive("PA-data: all 16 ordered subsets of the three hint types x salt present/absent per ETYPE-INFO(2) entry x six etypes")
+	// order independence as such: sets that also hold an ETYPE-INFO / ETYPE-INFO2 element without any entry (what that means is
+	// open, so two keys are admissible) and sets with two elements of the same kind are excluded; every order of one set
+	// must give one key
+	r.Rule("padata-order (enumerated): every non-empty subset of {PW-SALT, ETYPE-INFO, ETYPE-INFO2, ETYPE-INFO without entries, ETYPE-INFO2 without entries} with at most one element per PA-DATA type, differing salts, for every etype: all orders of the set are derived inside one case and must give the same key, which must be the key of the set without the empty elements or the key with them outranking the lower kinds")
+	type oj struct {
+		et   int32
+		mask int
+	}
+	var ojobs []oj
+	for _, et := range ref.ETypes {
+		for mask := 1; mask < 32; mask++ {
+			if (mask&2 != 0 && mask&8 != 0) || (mask&4 != 0 && mask&16 != 0) || mask&(8|16) == 0 {
+				continue // one element per type; at least one element without entries (the rest is the check above)
+			}
+			ojobs = append(ojobs, oj{et, mask})
+		}
+	}
+	evid.Parallel(len(ojobs), 16, func(i int) {
+		j := ojobs[i]
+		lbl := fmt.Sprintf("pao/%d/%d", j.et, j.mask)
+		c := Case{Kind: "padata-order", EType: j.et, Realm: "EXAMPLE.COM", CName: "alice/admin", Password: hex.EncodeToString([]byte("password-" + hex.EncodeToString(kgen.DetBytes(r.Seed(), lbl, 3))))}
+		for b, ty := range []int{3, 11, 19, 11, 19} {
+			if j.mask&(1<<b) == 0 {
+				continue
+			}
+			h := Hint{Type: ty, Empty: b >= 3, Salt: hex.EncodeToString([]byte(fmt.Sprintf("SALT%d-%x", ty, kgen.DetBytes(r.Seed(), lbl+"/s", 2))))}
+			if ty == 19 && !h.Empty && j.et != ref.DES3 && j.et != ref.RC4 {
+				h.Params = fmt.Sprintf("%08x", 1+int(kgen.DetBytes(r.Seed(), lbl+"/p", 1)[0]))
+			}
+			c.Hints = append(c.Hints, h)
+		}
+		judge("padata", c, "padata-order|"+lbl, nil, fmt.Sprintf("hints%d", len(c.Hints)), fmt.Sprintf("etype%d", j.et), "element-without-entries")
+	})
 
 	defer func() {
 		// concurrent tier: the cases that held one at a time, evaluated 16 at once (shared state inside the library -
